@@ -318,6 +318,12 @@ def _process_properties(  # noqa: PLR0912, PLR0911
         if isinstance(prop_or_error, PropertyError):
             return prop_or_error
 
+    # A member may require a property that another member declares (e.g. one inherited through a reference)
+    for name in required_set:
+        inherited = properties.get(name)
+        if inherited is not None and not inherited.required:
+            properties[name] = evolve(inherited, required=True)
+
     required_properties = []
     optional_properties = []
     for prop in properties.values():
